@@ -848,7 +848,7 @@ Section ReaderInv.
     destruct (pend r) as [[c p]|]; [|now inversion H; subst].
     assert (Hr0 : PathInv {| wfp := wfp r; pfw := pfw r; mvf := mvf r; calls := calls r; pend := None |}).
     { destruct Hi as [P1 P2 P3 P4]. constructor; cbn; eauto. intros ? ? Hx; discriminate Hx. }
-    destruct (is_moved_to (k_mask e) && N.eqb (k_cookie e) c); [now inversion H; subst|].
+    destruct (is_moved_to (k_mask e) && N.eqb (k_cookie e) c && amem N.eqb (k_wd e) (pfw r)); [now inversion H; subst|].
     eapply forget_tree_inv; eauto.
   Qed.
 
@@ -1095,7 +1095,7 @@ Section ReaderQueue.
     intros Hk H. unfold settle_pending in H.
     destruct (c_fix_moveout C); [|now inversion H; subst].
     destruct (pend r) as [[c p]|]; [|now inversion H; subst].
-    destruct (is_moved_to (k_mask e) && N.eqb (k_cookie e) c); [now inversion H; subst|].
+    destruct (is_moved_to (k_mask e) && N.eqb (k_cookie e) c && amem N.eqb (k_wd e) (pfw r)); [now inversion H; subst|].
     eapply forget_tree_kq; eauto.
   Qed.
 
@@ -1775,11 +1775,11 @@ Proof.
     congruence.
 Qed.
 
-(* The head of the loop body, current code: when the record after a directory IN_MOVED_FROM is not its IN_MOVED_TO, no
+(* The head of the loop body, current code: when the record after a directory IN_MOVED_FROM is not its IN_MOVED_TO on a known descriptor, no
    key of _wd_for_path is the moved-out path or lies below it any more, and nothing is remembered *)
 Theorem settle_pending_forgotten C r k e c p r' k' :
   c_fix_moveout C = true -> pend r = Some (c, p) ->
-  is_moved_to (k_mask e) && N.eqb (k_cookie e) c = false ->
+  is_moved_to (k_mask e) && N.eqb (k_cookie e) c && amem N.eqb (k_wd e) (pfw r) = false ->
   settle_pending C r k e = (r', k') ->
   pend r' = None /\
   (forall x, In x (wfp r') -> In x (wfp r)) /\
